@@ -42,5 +42,11 @@ ENTRY(t2d_shearY) { auto m = in_mat<3, 3, TY>(c, 0); TY x = c.template in<TY>(1,
 ENTRY(shearX3D) { auto m = M4; TY s = c.template in<TY>(1, 0); TY t = c.template in<TY>(1, 1); out_mat(c, glm::shearX3D(m, s, t)); }
 ENTRY(shearY3D) { auto m = M4; TY s = c.template in<TY>(1, 0); TY t = c.template in<TY>(1, 1); out_mat(c, glm::shearY3D(m, s, t)); }
 ENTRY(shearZ3D) { auto m = M4; TY s = c.template in<TY>(1, 0); TY t = c.template in<TY>(1, 1); out_mat(c, glm::shearZ3D(m, s, t)); }
+ENTRY(shearX2D) { auto m = in_mat<3, 3, TY>(c, 0); TY s = c.template in<TY>(1, 0); out_mat(c, glm::shearX2D(m, s)); }
+ENTRY(shearY2D) { auto m = in_mat<3, 3, TY>(c, 0); TY s = c.template in<TY>(1, 0); out_mat(c, glm::shearY2D(m, s)); }
+ENTRY(reflect2D) { auto m = in_mat<3, 3, TY>(c, 0); auto n = in_vec<3, TY>(c, 1); out_mat(c, glm::reflect2D(m, n)); }
+ENTRY(reflect3D) { auto m = M4; auto n = in_vec<3, TY>(c, 1); out_mat(c, glm::reflect3D(m, n)); }
+ENTRY(proj2D) { auto m = in_mat<3, 3, TY>(c, 0); auto n = in_vec<3, TY>(c, 1); out_mat(c, glm::proj2D(m, n)); }
+ENTRY(proj3D) { auto m = M4; auto n = in_vec<3, TY>(c, 1); out_mat(c, glm::proj3D(m, n)); }
 ENTRY(scaleBias) { auto m = M4; TY s = c.template in<TY>(1, 0); TY b = c.template in<TY>(1, 1); out_mat(c, glm::scaleBias(m, s, b)); }
 VT_MAIN("C09")
